@@ -5,6 +5,8 @@ let dispatch fn args = match fn, args with
     string_of_nlist (k_stream (n_of_hex i) (n_of_hex o) (n_of_hex st) (n_of_hex op) (n_of_hex cr) (n_of_hex ok)
                        (bytes_of_hex doc) (bytes_of_hex logm))
   | "sink", [i; o] -> hex_of_n (k_sink (n_of_hex i) (n_of_hex o))
+  | "multi", [stream; js; codes] ->
+    string_of_nlist (k_multi (bool_of_str stream) (bool_of_str js) (nlist_of_string codes))
   | "exit", [ok] -> hex_of_z (exit_status (bool_of_str ok))
   | _ -> failwith ("unknown function " ^ fn)
 let () = main dispatch
